@@ -45,6 +45,11 @@ class Unit:
     def __repr__(self): return '()'
 UNIT = Unit()
 
+class Never(Unit):
+    """the value of an expression on a path that has left the function (`return`): it takes part in no join"""
+    def __repr__(self): return '!'
+NEVER = Never()
+
 class StructV:
     def __init__(self, path, fields, ty=None):
         self.path = path; self.fields = fields; self.ty = ty or path; self.uid = new_uid()
@@ -86,6 +91,11 @@ class ClosureV:
 class FnItemV(ClosureV):
     """a function item used as a value (`map_or(0, Into::into)`, `.map(u32::from)`): called by path"""
     def __init__(self, path, ty): self.d = path; self.upvars = []; self.fn_ty = ty
+
+class ChoiceV:
+    """one of several values depending on conditions (e.g. a `&dyn Aml` chosen by a match among structures of different types)"""
+    def __init__(self, alts): self.alts = list(alts)      # [(cond, value)], last cond TRUE
+    def __repr__(self): return 'Choice%r' % ([type(v).__name__ for _, v in self.alts],)
 
 class OuterSink:
     """the `&mut dyn AmlSink` parameter of the function under analysis: records the trace"""
@@ -303,7 +313,9 @@ class State:
 
 class Frame:
     def __init__(self, d):
-        self.d = d; self.vars = {}; self.upvars = {}; self.tsub = {}
+        self.d = d; self.vars = {}; self.upvars = {}; self.tsub = {}; self.loop_depth = 0
+        self.returned = None      # condition under which this activation has already executed `return`
+        self.ret_vals = []        # [(condition, value)] of those returns, in order
 
 class Diverge(Exception): pass
 
@@ -671,6 +683,10 @@ class Interp:
         # walk frames and roots in parallel
         def join(vals):
             # vals: [(cond, value)]; returns joined value
+            if any(isinstance(v, Never) for _, v in vals):
+                vals = [(c, v) for c, v in vals if not isinstance(v, Never)]
+                if not vals: return NEVER
+                vals = vals[:-1] + [(TRUE, vals[-1][1])]
             vs = [v for _, v in vals]
             first = vs[0]
             if all(is_term(v) for v in vs):
@@ -734,7 +750,13 @@ class Interp:
                 if all(place_key(v.place) == place_key(first.place) for v in vs): return first
                 # shared references to branch-local temporaries / different views: join what they refer to
                 if not any(v.mut for v in vs):
-                    j = join([(c, v.place.get()) for c, v in vals])
+                    pointees = [(c, v.place.get()) for c, v in vals]
+                    if all(isinstance(pv, (StructV, EnumV, DynV)) for _, pv in pointees) and len({getattr(pv, 'path', None) or repr(getattr(pv, 'name', None)) for _, pv in pointees}) > 1:
+                        # shared references to objects of different types (a `&dyn Trait` picked by a match): a choice
+                        r_ = RefV(Cell(ChoiceV(pointees)))
+                        if any(getattr(v, 'src_ty', None) for v in vs): r_.src_tys = [getattr(v, 'src_ty', None) for v in vs]
+                        return r_
+                    j = join(pointees)
                     if not isinstance(j, Top): return RefV(Cell(j))
                 return self.top('join of references to different places')
             if all(isinstance(v, (SliceV, SeqV)) for v in vs) and any(isinstance(v, SliceV) for v in vs):
@@ -790,7 +812,7 @@ class Interp:
             return old
         return new
 
-    def branch(self, conds_and_thunks):
+    def branch(self, conds_and_thunks, carry=None):
         """conds_and_thunks: [(cond term, thunk)]; conditions are tested in order (first match wins);
         the last entry should have cond TRUE (else).  Returns the joined value."""
         A = self.st
@@ -804,12 +826,16 @@ class Interp:
         if not live:
             A.dead = True; return UNIT
         if len(live) == 1 and live[0][0] == TRUE:
-            return live[0][1]()
+            return live[0][1](*carry) if carry is not None else live[0][1]()
         results = []
         neg = []   # negations of earlier conditions
         for c, th in live:
-            S = fcopy(A)
+            memo_ = {}
+            S = fcopy(A, memo_)
             self.st = S
+            if carry is not None:
+                # objects the thunk works on must be the ones of this branch's copy of the state
+                th = (lambda th=th, tr=[fcopy(o, memo_) for o in carry]: th(*tr))
             for nc in neg:
                 S.facts.append((bnot(nc), None)); sym.refine(bnot(nc), S.ranges)
             if c != TRUE:
@@ -836,6 +862,18 @@ class Interp:
         for c, S, v in results:
             if S.dead and c != TRUE:
                 A.facts.append((bnot(c), None)); sym.refine(bnot(c), A.ranges)
+        # `return` executed in some branches (flag form): the activation has returned under the disjunction of those paths
+        fi_ = len(A.frames) - 1
+        if fi_ >= 0 and any(len(S.frames) > fi_ and S.frames[fi_].returned is not None for _, S, _ in alive):
+            rc = FALSE; rv = []
+            for c, S, v in reversed(alive):
+                fr_ = S.frames[fi_]
+                r_ = fr_.returned if fr_.returned is not None else FALSE
+                rc = r_ if c == TRUE else b_or(b_and(c, r_), b_and(bnot(c), rc))
+            for c, S, v in alive:
+                for (cc, vv) in S.frames[fi_].ret_vals: rv.append((b_and(c, cc) if c != TRUE else cc, vv))
+            A.frames[fi_].returned = rc if rc != FALSE else None
+            A.frames[fi_].ret_vals = rv
         # `continue` taken in some branches: the iteration has ended under the disjunction of those paths
         if any(S.skip is not None for _, S, _ in alive):
             sk = FALSE
@@ -1111,6 +1149,17 @@ class Interp:
             if k_ < start: continue
             if self.st.dead: return UNIT
             sk = self.st.skip
+            rt_ = self.frame().returned if self.st.frames else None
+            if rt_ is not None and sk is None:
+                if rt_ == TRUE: return UNIT
+                fr_ = self.frame(); saved_rv = list(fr_.ret_vals)
+                def rest_r(e=e, k_=k_):
+                    f2 = self.frame(); f2.returned = None; f2.ret_vals = []
+                    return self.e_Block(e, k_)
+                def gone_r():
+                    f2 = self.frame(); f2.returned = TRUE; f2.ret_vals = [(TRUE, vv) for _, vv in saved_rv[-1:]] if len(saved_rv) == 1 else [(TRUE, self._join([(c_, v_) for c_, v_ in saved_rv[:-1]] + [(TRUE, saved_rv[-1][1])]))]
+                    return NEVER
+                return self.branch([(rt_, gone_r), (TRUE, rest_r)])
             if sk is not None:
                 if sk == TRUE: return UNIT
                 # some paths have left the iteration: the remaining statements run on the others only
@@ -1124,7 +1173,18 @@ class Interp:
             if s['k'] == 'Let':
                 if 'init' in s:
                     v = self.eval(s['init'])
-                    if 'else' in s: self.top('let-else', s)
+                    if 'else' in s:
+                        # let PAT = v else { diverge }: the else block runs on the paths where the pattern does not match
+                        # (it panics, returns or continues); the binding holds on the others
+                        c_ = self.matches(s['pat'], v)
+                        if isinstance(c_, Top) or not is_term(c_): self.top('let-else on an undecided pattern', s)
+                        elif c_ != TRUE:
+                            if self._diverges(s['else']):
+                                self.guards.append({'cond': c_, 'sp': s.get('sp'), 'kind': 'assert'})
+                                self.log.append(('guard', c_, s.get('sp')))
+                            self.branch([(bnot(c_), lambda s=s: self.eval(s['else'])), (TRUE, lambda: UNIT)])
+                            if self.st.dead: return UNIT
+                            if c_ == FALSE: return NEVER       # the pattern never matches here: everything below is unreachable
                     self.bind(s['pat'], v)
                 else:
                     self.bind(s['pat'], self.top('uninitialised let'))
@@ -1132,6 +1192,17 @@ class Interp:
                 self.eval(s['e'])
         if self.st.dead: return UNIT
         sk = self.st.skip
+        rt_ = self.frame().returned if self.st.frames else None
+        if rt_ is not None and sk is None and 'expr' in e:
+            if rt_ == TRUE: return UNIT
+            fr_ = self.frame(); saved_rv = list(fr_.ret_vals)
+            def rest_r2(e=e):
+                f2 = self.frame(); f2.returned = None; f2.ret_vals = []
+                return self.eval(e['expr'])
+            def gone_r2():
+                f2 = self.frame(); f2.returned = TRUE; f2.ret_vals = saved_rv
+                return NEVER
+            return self.branch([(rt_, gone_r2), (TRUE, rest_r2)])
         if sk is not None and 'expr' in e:
             if sk == TRUE: return UNIT
             def rest2(e=e):
@@ -1323,6 +1394,12 @@ class Interp:
     def e_Return(self, e):
         # `return v` on a path whose conditions were all decided: the enclosing function ends here with v
         v = self.eval(e['value']) if isinstance(e.get('value'), dict) else UNIT
+        if self.st.frames and self.frame().loop_depth == 0:
+            # outside loops an early return is followed under undecided conditions too: the activation is marked as
+            # returned on this path and every remaining statement of the function runs on the other paths only
+            fr = self.frame()
+            fr.returned = TRUE; fr.ret_vals = [(TRUE, v)]
+            return NEVER
         raise ReturnEx(v)
 
     def e_If(self, e):
@@ -1396,11 +1473,36 @@ class Interp:
         v = self.eval(e['e'])
         return self.matches(e['pat'], v)
 
-    def e_Loop(self, e): return self.top('bare loop', e)
+    def e_Loop(self, e):
+        # `while let Some(PAT) = ITER.next() { BODY }`  ==  `for PAT in ITER { BODY }`
+        b = e.get('body')
+        while isinstance(b, dict) and b.get('k') == 'Block' and not b.get('stmts') and isinstance(b.get('expr'), dict): b = b['expr']
+        if isinstance(b, dict) and b.get('k') == 'If' and b['cond'].get('k') == 'LetCond' and isinstance(b.get('else'), dict):
+            els = b['else']
+            while els.get('k') == 'Block' and not els.get('stmts') and isinstance(els.get('expr'), dict): els = els['expr']
+            if els.get('k') == 'Block' and len(els.get('stmts', [])) == 1 and els['stmts'][0].get('k') == 'Expr' and 'expr' not in els: els = els['stmts'][0]['e']
+            ce = b['cond']; call = ce['e']; pat = ce['pat']
+            nm = (call.get('resolved') or call.get('callee') or '') if call.get('k') == 'Call' else ''
+            if els.get('k') == 'Break' and 'value' not in els and (nm == 'core::iter::Iterator::next' or nm.endswith('as core::iter::Iterator>::next')) \
+               and pat.get('k') == 'Variant' and pat.get('variant') == 'Some' and len(pat.get('subs', [])) == 1:
+                itv = self.eval(call['args'][0])
+                inner = pat['subs'][0]['pat']; body = b['then']
+                def one(elem):
+                    self.bind(inner, elem)
+                    r = self.eval(body)
+                    self.st.skip = None
+                    return r
+                self.frame().loop_depth += 1
+                try:
+                    self.iterate(itv, one, e)
+                finally:
+                    self.frame().loop_depth -= 1
+                return UNIT
+        return self.top('bare loop', e)
     def e_Break(self, e): return self.top('break', e)
     def e_Continue(self, e):
         # the rest of the iteration is skipped on this path; the enclosing blocks stop (or guard) their remaining statements
-        if getattr(self, 'loop_depth', 0) <= 0 or e.get('label_outer'): return self.top('continue outside a modelled loop', e)
+        if not self.st.frames or self.frame().loop_depth <= 0 or e.get('label_outer'): return self.top('continue outside a modelled loop', e)
         self.st.skip = TRUE
         return UNIT
     def e_Static(self, e): return self.top('static ' + e['path'], e)
@@ -1422,11 +1524,11 @@ class Interp:
             r = self.eval(body)
             self.st.skip = None          # a `continue` ends this iteration only
             return r
-        self.loop_depth = getattr(self, 'loop_depth', 0) + 1
+        self.frame().loop_depth += 1
         try:
             self.iterate(it, one, e)
         finally:
-            self.loop_depth -= 1
+            self.frame().loop_depth -= 1
         return UNIT
 
     def iter_source(self, it):
@@ -1571,6 +1673,12 @@ class Interp:
                     self.range_index[ia] = (s[2][1], vn)
                 self.summarise(lambda: fn(wrap_ref(add(s[1], ia))), cnt, vn, add(s[1], ia), None, e); pos = add(pos, cnt)
                 if vn: self.active_loops.discard(vn); self.range_index.pop(ia, None)
+            elif s[0] == 'cond':
+                # a sequence that is one of two sequences depending on a condition (e.g. `opt.as_deref().unwrap_or(&[])`)
+                self._iter_idx = None
+                self.branch([(s[1], lambda s=s: (self.iterate(SeqV(seq.elem, list(s[2])), fn, e), UNIT)[1]),
+                             (TRUE, lambda s=s: (self.iterate(SeqV(seq.elem, list(s[3])), fn, e), UNIT)[1])])
+                pos = add(pos, seglen(s))
             elif s[0] == 'fill':
                 self._iter_idx = add(pos, self._index_atom('fill@%s' % show(pos), s[1]))
                 self.summarise(lambda: fn(wrap_ref(fcopy(s[2]))), s[1], None, s[2], None, e); pos = add(pos, s[1])
@@ -1768,6 +1876,10 @@ class Interp:
             rv = args[0]
             while isinstance(rv, RefV): rv = rv.place.get()
             rty = rv.ty if isinstance(rv, (StructV, EnumV)) else self.value_type(rv)
+            if not rty and isinstance(e.get('args'), list) and e['args'] and isinstance(e['args'][0], dict):
+                # a scalar / slice receiver has no type of its own: the static type of the receiver expression
+                rty = strip_refs(norm_ty(self.resolve_ty(e['args'][0].get('ty', '')))) or None
+            if not rty and e.get('generics'): rty = norm_ty(self.resolve_ty(e['generics'][0]))
             mname = (e.get('callee_name') or name.split('::')[-1])
             d = self.f.method(tr, rty, mname) if rty else None
             if d is None and rty: d = self.f.trait_defaults.get(tr, {}).get(mname)
@@ -1820,6 +1932,16 @@ class Interp:
                 if 'pat' in p: self.bind(p['pat'], a)
             try:
                 r = self.eval(b['body'])
+                if fr.returned is not None and fr.ret_vals:
+                    # value of the activation: the returned value on the paths that returned early, the body's value otherwise
+                    if fr.returned == TRUE:
+                        vals_ = fr.ret_vals
+                        r = vals_[0][1] if len(vals_) == 1 else self._join([(c_, v_) for c_, v_ in vals_[:-1]] + [(TRUE, vals_[-1][1])])
+                    else:
+                        vals_ = [(c_, v_) for c_, v_ in fr.ret_vals] + [(TRUE, r)]
+                        if all(isinstance(v_, Unit) for _, v_ in vals_): r = UNIT
+                        else: r = self._join(vals_)
+                if isinstance(r, Never): r = UNIT
             except ReturnEx as rx:
                 r = rx.value
         finally:
@@ -1958,6 +2080,11 @@ class Interp:
         obj = args[0]
         while isinstance(obj, RefV): obj = obj.place.get()
         if isinstance(obj, Top): return obj
+        if isinstance(obj, ChoiceV):
+            # serialise whichever alternative the conditions select
+            alts = [(c, (lambda sink_, *vs_, k=k: self.aml_call([RefV(Cell(vs_[k])), sink_], e))) for k, (c, v) in enumerate(obj.alts)]
+            alts[-1] = (TRUE, alts[-1][1])
+            return self.branch(alts, carry=[args[1]] + [v for _, v in obj.alts])
         if isinstance(obj, DynV):
             tgt = self.sink_target(args[1])
             seg = ('opaque', obj.name)
